@@ -83,7 +83,7 @@ def pool_problems(path):
         return ["%d loops read constants (expected one)" % len(loops)]
     lp = loops[0]
     it = lp["args"][0]
-    if not (it[0] == "iter" and it[2] == "fwd" and it[1][0] == "ctor" and (it[1][1] or "").endswith("Range")):
+    if not (it[0] == "iter" and is_forward(it) and it[1][0] == "ctor" and (it[1][1] or "").endswith("Range")):
         return ["the constants are not read by a forward loop over 0..count"]
     if inner[0] == "app" and inner[1] == "collected":
         if inner[2][0] != lit(lp.get("loop")):
@@ -146,6 +146,31 @@ def w_items(effs):
     return out
 
 
+def is_forward(t):
+    """effective orientation of an iterator term: every nested `iter(.., rev, ..)` / reversed(..) on the way down to
+    the underlying sequence flips it; anything opaque in between makes the answer False (not provably forward)."""
+    flips = 0
+    while isinstance(t, tuple) and t:
+        if t[0] == "iter":
+            if t[2] == "rev":
+                flips += 1
+            elif t[2] != "fwd":
+                return False
+            if any(isinstance(f, tuple) and f and f[0] in ("rev",) or f == "rev" for f in t[3]):
+                flips += 1
+            t = t[1]
+        elif t[0] == "app" and t[1] == "map_of":
+            t = t[2][0]
+        elif t[0] == "app" and t[1] == "reversed":
+            flips += 1
+            t = t[2][0]
+        elif t[0] == "app" and t[1] in ("collect_into", "sorted", "dedup"):
+            return False
+        else:
+            break
+    return flips % 2 == 0
+
+
 def _seq_base(t):
     """underlying sequence of an iterator / mapped / collected term"""
     while True:
@@ -191,7 +216,7 @@ def parse_writer(items, loops, self_fields):
                     cbase = _seq_base(counted) if counted is not None else None
                     lp = nxt[3]
                     it_t = nxt[1]
-                    fwd = it_t[0] == "iter" and it_t[2] == "fwd"
+                    fwd = it_t[0] == "iter" and is_forward(it_t)
                     bodies = [b for b in nxt[2]]
                     elem_kind = None
                     if len(bodies) == 1 and len(bodies[0]) == 1:
@@ -365,6 +390,25 @@ def decode_of(t, sym):
     return None
 
 
+def wrapper_of(t, sym):
+    """None when the field holds the decoded bytes as they are (through newtype constructors / widening casts /
+    Some/Ok only); otherwise the name of the first operation the decoded value passes through."""
+    while isinstance(t, tuple) and t:
+        if t[0] == "ctor" and len(t[3]) == 1:
+            t = t[3][0][1]
+        elif t[0] in ("some", "ok") and len(t) == 2:
+            t = t[1]
+        elif t[0] == "app" and t[1] == "cast" and len(t[2]) == 2:
+            t = t[2][1]
+        elif t[0] == "app" and t[1] in ("from_le_bytes", "from_be_bytes", "from_ne_bytes") and t[2][1] == sym:
+            return None
+        elif t[0] == "app":
+            return t[1]
+        else:
+            return t[0]
+    return "?"
+
+
 def reader_variants(fx, role, adt):
     """{tag literal: [path layouts]} for the reader of constants / opcodes"""
     key = ("r", id(fx), role)
@@ -412,8 +456,8 @@ def parse_reader(L):
     def dst_of(sym):
         for n, t in ctor_fields.items():
             if mentions(t, sym):
-                return n, decode_of(t, sym)
-        return None, None
+                return n, decode_of(t, sym), wrapper_of(t, sym)
+        return None, None, None
 
     while i < len(items):
         it = items[i]
@@ -447,7 +491,7 @@ def parse_reader(L):
                             elem = "sub:" + reads[0][1]
                             pu = [x for x in b if x[0] == "push"]
                             in_order = len(pu) == 1 and pu[0][2] == reads[0][2]
-                fwd = rng[0] == "iter" and rng[2] == "fwd"
+                fwd = rng[0] == "iter" and is_forward(rng)
                 # destination: which ctor field receives the sequence
                 dst = None
                 after = items[i + 2] if i + 2 < len(items) else None
@@ -456,8 +500,8 @@ def parse_reader(L):
                 if after is not None and after[0] == "extend":
                     i += 1
                 continue
-            dst, dec = dst_of(sym)
-            fields.append(("prim", dst, {"bytes": n, "dec": dec, "at": it[3]}))
+            dst, dec, wrapped = dst_of(sym)
+            fields.append(("prim", dst, {"bytes": n, "dec": dec, "wrapped": wrapped, "at": it[3]}))
             i += 1
             continue
         i += 1
@@ -496,6 +540,8 @@ def check_reader_variant(spec, variant, layouts):
                     problems.append("field `%s`: %d byte(s) read but decoded as %s" % (wf, d["bytes"], dec[0]))
                 if dst != wf:
                     problems.append("the %s read at the position of `%s` ends up in `%s` (field order differs from S3)" % (wp, wf, dst))
+                elif dec is not None and d.get("wrapped"):
+                    problems.append("the value decoded for `%s` passes through `%s` before it is stored: the field does not hold the number in the file" % (wf, d["wrapped"]))
             elif wp in ("utf8", "u16vec", "code"):
                 want_count = {"utf8": ("u32", 4), "u16vec": ("u16", 2), "code": ("u32", 4)}[wp]
                 want_elem = {"utf8": "r1", "u16vec": "r2", "code": "sub:opcode"}[wp]
